@@ -119,6 +119,15 @@ func GenLineFilter(t *rapid.T, s Schema) gen.Stage {
 	}
 	st := gen.Stage{Kind: "linefilter"}
 	st.Op = rapid.SampledFrom([]string{"|=", "|=", "!=", "|~", "|~", "!~"}).Draw(t, "lf-op")
+	if s.Format == "packed" && rapid.IntRange(0, 2).Draw(t, "lf-packed") == 0 {
+		// Needles whose verdict differs between the packed JSON and the unpacked entry.
+		if st.Op == "|~" || st.Op == "!~" {
+			st.Value = genBS(rapid.SampledFrom([]string{`^\{`, `\}$`, `^[a-zA-Z0-9]`, `"_entry"`, `\\"`, `^noise`, `^say "hi"`}).Draw(t, "lf-packed-re"))
+		} else {
+			st.Value = genBS(rapid.SampledFrom([]string{"_entry", `{"`, `"}`, `\"`, `say "hi"`, `":"`, `{"json":"inside"}`}).Draw(t, "lf-packed-needle"))
+		}
+		return st
+	}
 	if len(anchorFrags) > 0 && rapid.IntRange(0, 2).Draw(t, "lf-anchored") != 0 {
 		frag := rapid.SampledFrom(anchorFrags).Draw(t, "lf-frag")
 		if rapid.Bool().Draw(t, "lf-sub") && len(frag) > 1 {
@@ -324,6 +333,8 @@ func genParserStage(t *rapid.T, s Schema) (gen.Stage, bool) {
 			`(?P<user>alice|bob) (\S+) (?P<size>\S+)`,
 		}).Draw(t, "regexp")
 		return gen.Stage{Kind: "regexp", Regex: re}, true
+	case "packed":
+		return gen.Stage{Kind: "unpack"}, true
 	case "plain":
 		if rapid.IntRange(0, 2).Draw(t, "plain-regexp") == 0 {
 			re := rapid.SampledFrom([]string{`(?P<first>\w+)`, `(?P<num>\d+)`, `(?P<verb>GET|POST) `, `^(?P<head>\S+) (?P<next>\S+)`}).Draw(t, "regexp")
@@ -495,6 +506,13 @@ func AnchorSchema(s Schema, r model.Rec) (Schema, []string) {
 	}
 	var frags []string
 	line := string(r.Line)
+	if r.Doc != nil && r.Doc.Format == "packed" && r.Doc.JSON != nil {
+		for _, f := range r.Doc.JSON.Obj {
+			if f.Key == "_entry" {
+				line = f.Val.S + " " + line
+			}
+		}
+	}
 	for i := 0; i < len(line); {
 		j := i
 		for j < len(line) && line[j] != ' ' && line[j] != '"' && line[j] != ',' {
@@ -545,6 +563,7 @@ func GenLogQuery(t *rapid.T, s Schema, o QueryOpts) gen.LogQuery {
 		if st, ok := genParserStage(t, s); ok {
 			q.Stages = append(q.Stages, st)
 			ns--
+			rewritten = rewritten || st.Kind == "unpack"
 		}
 	}
 	for i := 0; i < ns; i++ {
@@ -558,6 +577,7 @@ func GenLogQuery(t *rapid.T, s Schema, o QueryOpts) gen.LogQuery {
 		case k <= 7 && o.AllowParsers && !o.OnlyFilters && !rewritten:
 			if st, ok := genParserStage(t, s); ok {
 				q.Stages = append(q.Stages, st)
+				rewritten = rewritten || st.Kind == "unpack"
 			}
 		case k == 8 && o.AllowDistinct && !o.OnlyFilters:
 			names := allNames(s)
